@@ -356,3 +356,45 @@ def terminal_table(ntname, nts=None):
         else:
             return None
     return tab
+
+
+def action_ast(a):
+    """parsed and normalised (rules/normalize.py) action body of an alternative, or None"""
+    if a["action"] is None:
+        return None
+    key = ("norm", a["action"])
+    if key not in _action_cache:
+        import copy
+
+        import normalize
+
+        r = copy.deepcopy(action_asts([a])[0])
+        if r is not None and r.get("k") != "ParseError":
+            wrap = {"body": r, "sig": {"inputs": []}}
+            normalize.n1(r)
+            normalize.n3(r)
+            normalize.n2(r)
+        _action_cache[key] = r
+    return _action_cache[key]
+
+
+def action_leaves(a):
+    """(leaves, effects): every result expression of the action (lets substituted, catch-all aliases resolved) and
+    the statements executed for effect"""
+    import terms
+
+    r = action_ast(a)
+    if r is None or r.get("k") == "ParseError":
+        return None, None
+    eff = []
+    lv = terms.leaves(r, {}, eff)
+    return lv, eff
+
+
+def leaf_texts(a):
+    import terms
+
+    lv, eff = action_leaves(a)
+    if lv is None:
+        return None
+    return sorted({terms.norm(x).replace(" ", "") for x in lv})
